@@ -221,8 +221,35 @@ def extra_obligations(mods, tier, seed):
                              f" [{v}]",
                     "time": per, "replay": {"script": CORPUS[r["name"]], **{k: r.get(k) for k in ("verdict", "first_difference", "detail", "cpython", "firmware", "cpp") if r.get(k)}},
                     "replay_confirmed": status == "sat"})
+    # generated programs of the healthy region of the subset (seeded, deterministic): one aggregate obligation
+    from progs.gen import programs
+    # the generator seeds are fixed (not VERIF_SEED): the check must give the same verdict on the same tree on every run, and every
+    # generated program of these seeds has been run against the pinned tree
+    t0 = time.time()
+    if tier == "thorough":
+        gen = {}
+        for gs in (0, 1, 2):
+            gen.update(programs(150, seed=gs))
+    else:
+        gen = programs(48, seed=0)
+    n_gen = len(gen)
+    gres = run_corpus(gen, passes=3)
+    gbad = [r for r in gres if r["verdict"] not in ("same", "rejected", "python-undefined")]
+    gharness = [r for r in gbad if r["verdict"].startswith("harness")]
+    gcounts = {}
+    for r in gres:
+        gcounts[r["verdict"]] = gcounts.get(r["verdict"], 0) + 1
+    status = "discharged" if not gbad else ("unknown" if len(gharness) == len(gbad) else "sat")
+    out.append({"name": "C01/L2/generated-programs", "status": status, "backend": "bounded-differential", "bounded": True,
+                "where": f"{n_gen} generated scripts (fixed generator seeds; typed variables, arithmetic, conditionals, counted loops with break/continue, helpers, tuple and "
+                         f"augmented assignments, f-strings, fixed lists): firmware trace equals CPython's over setup() + 3 passes {gcounts}",
+                "time": round(time.time() - t0, 2),
+                "replay": {"failing": [{"name": r["name"], "verdict": r["verdict"], "first_difference": r.get("first_difference"), "detail": (r.get("detail") or "")[:300],
+                                        "script": gen[r["name"]]} for r in gbad[:3]]},
+                "replay_confirmed": status == "sat"})
+    counts["generated"] = gcounts
     _B["l2"] = counts
-    PROPERTY["bounded"] = [{"check": "L2 CPython-vs-firmware differential", "bound": f"{len(CORPUS)} corpus scripts x setup() + {passes} loop() passes; "
+    PROPERTY["bounded"] = [{"check": "L2 CPython-vs-firmware differential", "bound": f"{len(CORPUS)} corpus scripts x setup() + {passes} loop() passes + {n_gen} generated scripts x 3 passes; "
                             "observables: serial lines and delays; host int is 32-bit in fwsim"}]
     return out
 
